@@ -18,7 +18,7 @@ def configs(tier):
         ('2 documents: root children/attributes/text, 3 child names', dict(family='root_level', fam_kw=dict(docs=2, slots=2, attrs=1, text=True, leaf_form=False, root_form=False, **PLAIN))),
         ('3 documents: root children + text, plain names', dict(family='root_level', fam_kw=dict(docs=3, slots=2, attrs=0, text=True, leaf_form=False, root_form=False, names=['b', 'ns:c', 'type']))),
         ('3 occurrences x 2 children + attribute, case variants', dict(family='one_level', fam_kw=dict(occ=3, slots=2, attrs=1, text=False, leaf_form=False, p_form=False, **CASES))),
-        ('2 documents x 2 occurrences x 2 children, non-ASCII', dict(family='one_level', fam_kw=dict(docs=2, occ=2, slots=2, attrs=0, text=True, leaf_form=False, p_form=False, names=['Ид', 'self', 'b']))),
+        ('2 documents x 2 occurrences x 2 children, non-ASCII', dict(family='one_level', fam_kw=dict(docs=2, occ=2, slots=2, attrs=0, text=False, leaf_form=False, p_form=False, names=['Ид', 'self']))),
         ('serde_xml_rs is covered by C10; quick-xml preset, 4 occurrences x 2 children', dict(family='one_level', fam_kw=dict(occ=4, slots=2, attrs=0, text=False, leaf_form=False, p_form=False, names=['b', 'ns:c']))),
     ]
 
